@@ -34,12 +34,14 @@ BOUNDS = {
                  'lazy_states': ['plain', 'lazy', 'consumed', 'copied'], 'policies': ['fuse_to_matrix', 'fuse_contracted', 'no_fusion'],
                  'dtypes': ['real', 'complex'], 'covering_strength': 3, 'contracted_axes': '0..3'},
 }
+FLOAT_XVAL = {'quick': 1.0, 'thorough': 1.0}      # dtype promotion is observable on the float backend only
+FLOAT_NUMERIC_IS_VIOLATION = True
 OPTS = {'quick': {'max_paths': 4000, 'query_timeout_ms': 60000}, 'thorough': {'max_paths': 20000, 'query_timeout_ms': 120000}}
 
 LAZY = ['plain', 'lazy', 'consumed', 'copied']
 POLICIES = ['fuse_to_matrix', 'fuse_contracted', 'no_fusion']
 KINDS = ['add', 'scalar', 'conj', 'transpose', 'tensordot', 'tensordot_diag', 'vdot', 'trace', 'broadcast', 'mask',
-         'diag', 'addremove', 'ncon', 'output', 'elementwise']
+         'diag', 'addremove', 'ncon', 'output', 'elementwise', 'meta_operand', 'mixed_dtype']
 
 
 def cases(tier, seed):
@@ -56,7 +58,7 @@ def cases(tier, seed):
             factors['overlap'] = ['equal', 'subset', 'superset', 'overlap', 'disjoint']
         if kind == 'tensordot':
             factors['ncontr'] = [0, 1, 2, 3]
-        if kind in ('scalar', 'conj', 'transpose', 'output', 'elementwise', 'addremove'):
+        if kind in ('scalar', 'conj', 'transpose', 'output', 'elementwise', 'addremove', 'meta_operand', 'mixed_dtype'):
             factors['variant'] = VARIANTS[kind]
         if kind in ('scalar', 'conj', 'transpose', 'output', 'trace', 'addremove', 'add'):
             factors['rank'] = [0, 1, 2, 3, 4] if tier == 'quick' else [0, 1, 2, 3, 4, 5]
@@ -81,6 +83,8 @@ VARIANTS = {
     'output': ['to_numpy', 'to_numpy_legs', 'to_numpy_reverse', 'to_nonsymmetric', 'blocks', 'to_dense_native'],
     'elementwise': ['exp', 'sqrt', 'rsqrt', 'reciprocal', 'rsqrt_cut', 'reciprocal_cut'],
     'addremove': ['add_default', 'add_charge', 'add_leg_obj', 'remove', 'add_remove'],
+    'meta_operand': ['mask', 'broadcast', 'dot_diag', 'add_leg', 'flip_charges', 'switch_signature', 'remove_leg', 'getitem'],
+    'mixed_dtype': ['add', 'tensordot', 'dot_diag', 'broadcast', 'vdot', 'mul_complex'],
 }
 
 
@@ -945,3 +949,159 @@ def k_elementwise(ctx, rng, spec, cfg):
                 else:
                     ctx.eq([y], [0], 'reciprocal-cut')
     return describe(a)
+
+
+def k_meta_operand(ctx, rng, spec, cfg):
+    """leg-addressed operations on an operand that is meta-fused on OTHER legs and lazily transposed: must equal the operation on the plain,
+    materialised operand (differential; the plain operation itself is compared with NumPy in the other kinds)."""
+    import yastn
+    v = spec['variant']
+    rb = rng.randint(3, 4)
+    td = cat.rand_diag_spec(rng, spec['sym'], dims=(1, 2), dtype='real', s=(1, -1))
+    ib = rng.randrange(rb)
+    fixed = {ib: (rng.choice([1, -1]), td['legs'][0])} if v in ('mask', 'broadcast', 'dot_diag') else {}
+    if v == 'remove_leg' and cfg.sym.NSYM:
+        fixed = {ib: (rng.choice([1, -1]), {'t': [rng.choice(cat.window(spec['sym']))], 'D': [1]})}
+    elif v == 'remove_leg':
+        fixed = {ib: (1, {'t': [[]], 'D': [1]})}
+    tb = cat.rand_tensor_spec(rng, spec['sym'], rb, fixed=fixed, dims=(1, 2), nsect=(1, 2), max_size=_maxsize(spec), drop=spec.get('drop', 'none'),
+                              dtype=spec.get('dtype', 'real'), prefer={ib: fixed[ib][1]['t'][0]} if v == 'remove_leg' else None)
+    if tb is None:
+        ctx.skip('none')
+    b = cat.build(ctx, tb, 'b', config=cfg)
+    if v == 'dot_diag':
+        tb_s = tb['s'][ib]
+        td = dict(td, s=[-tb_s, tb_s] if rng.random() < 0.5 else [tb_s, -tb_s])
+    d = cat.build(ctx, td, 'd', config=cfg)
+    if v == 'mask':
+        d._data = np.array([(i % 3 != 1) for i in range(d.size)], dtype=bool)
+    others = [i for i in range(rb) if i != ib]
+    j, k = rng.sample(others, 2)
+    rest = [i for i in others if i not in (j, k)]
+    # meta-fuse (j, k); arrange groups in random order
+    groups = [(ib,), (j, k)] + [(x,) for x in rest]
+    rng.shuffle(groups)
+    b2 = b.fuse_legs(axes=tuple(g if len(g) > 1 else g[0] for g in groups), mode='meta')
+    perm = list(range(len(groups))); rng.shuffle(perm)
+    if spec['lazy_a'] != 'plain':
+        b2 = b2.transpose(tuple(perm))
+        groups = [groups[p] for p in perm]
+    if spec['lazy_a'] == 'consumed':
+        b2 = b2.consume_transpose()
+    pos = groups.index((ib,))                      # logical position of the target leg in b2
+    fpos = groups.index((j, k))
+    native_order = [x for g in groups for x in g]
+    bp = b.transpose(tuple(native_order)).consume_transpose()       # plain operand with the same native leg order
+    npos = native_order.index(ib)
+    def plain(r, fused_at):
+        """un-fuse the meta leg of a result and materialise"""
+        return r.unfuse_legs(axes=fused_at).consume_transpose()
+    if v == 'mask':
+        r2, r1, f = d.apply_mask(b2, axes=pos), d.apply_mask(bp, axes=npos), fpos
+    elif v == 'broadcast':
+        r2, r1, f = d.broadcast(b2, axes=pos), d.broadcast(bp, axes=npos), fpos
+    elif v == 'dot_diag':
+        side = 0 if d.get_legs(0).s == -b2.get_legs(pos).s else 1
+        r2, r1 = yastn.tensordot(b2, d, axes=(pos, side)), yastn.tensordot(bp, d, axes=(npos, side))
+        f = fpos - (1 if fpos > pos else 0)
+    elif v == 'add_leg':
+        ax = rng.randint(0, len(groups))
+        nat_ax = sum(len(g) for g in groups[:ax])
+        r2, r1 = b2.add_leg(axis=ax, s=1), bp.add_leg(axis=nat_ax, s=1)
+        f = fpos + (1 if ax <= fpos else 0)
+    elif v == 'flip_charges':
+        r2, r1, f = b2.flip_charges(axes=pos), bp.flip_charges(axes=npos), fpos
+    elif v == 'switch_signature':
+        r2, r1, f = b2.switch_signature(axes=[pos]), bp.switch_signature(axes=[npos]), fpos
+    elif v == 'remove_leg':
+        r2, r1 = b2.remove_leg(axis=pos), bp.remove_leg(axis=npos)
+        f = fpos - (1 if fpos > pos else 0)
+    elif v == 'getitem':
+        # block access on the meta-fused lazy operand addresses native legs in logical order
+        for t, D in zip(bp.struct.t, bp.struct.D):
+            ctx.eq(b2[t], bp[t], 'block access')
+        ctx.eq(b2.to_numpy(native=True), bp.to_numpy(), 'to_numpy(native=True)')
+        return describe(b)
+    wellformed(ctx, r2, f'meta-operand:{v}', check_dense_zero=False)
+    r2p = plain(r2, f)
+    r1 = r1.consume_transpose()
+    ctx.check(r2p.struct.s == r1.struct.s and r2p.n == r1.n, f'meta-operand:{v}:signature/charge', (r2p.struct.s, r1.struct.s))
+    legs = list(r1.get_legs(native=True))
+    got = r2p.get_legs(native=True)
+    ctx.check(len(got) == len(legs) and all(dense.legs_equal(x, y) for x, y in zip(got, legs)), f'meta-operand:{v}:legs', [(x.t, x.D, y.t, y.D) for x, y in zip(got, legs)])
+    ctx.eq(reassemble(r2p, legs), reassemble(r1, legs), f'{v} on meta-fused + lazily transposed operand == on plain operand')
+    return describe(b)
+
+
+def k_mixed_dtype(ctx, rng, spec, cfg):
+    """one real and one complex operand (dtype promotion).  On the symbolic backend both are exact terms; the concrete NumPy dtypes of the
+    buffers are observable on the float backend only, so this kind is also run on EVERY case in the float cross-run."""
+    import yastn
+    v = spec['variant']
+    first_complex = rng.random() < 0.5
+    da, db = ('complex', 'real') if first_complex else ('real', 'complex')
+    if v in ('dot_diag', 'broadcast'):
+        td = cat.rand_diag_spec(rng, spec['sym'], dims=(1, 2), dtype=da, s=rng.choice([(1, -1), (-1, 1)]))
+        d = cat.build(ctx, td, 'd', config=cfg)
+        rb = rng.randint(1, 3)
+        ib = rng.randrange(rb)
+        fixed = {ib: (-td['s'][1], td['legs'][0])}
+        tb = cat.rand_tensor_spec(rng, spec['sym'], rb, fixed=fixed, dims=(1, 2), max_size=60, dtype=db, drop=spec.get('drop', 'none'))
+        if tb is None:
+            ctx.skip('none')
+        dD = dict(zip([tuple(t) for t in td['legs'][0]['t']], td['legs'][0]['D']))
+        tb['legs'][ib]['D'] = [dD.get(tuple(t), D) for t, D in zip(tb['legs'][ib]['t'], tb['legs'][ib]['D'])]
+        b = cat.build(ctx, tb, 'b', config=cfg)
+        ld, lb = list(d.get_legs(native=True)), list(b.get_legs(native=True))
+        u = union_leg(ld[1], lb[ib].conj())
+        lb2 = list(lb); lb2[ib] = u.conj()
+        Dm, B = reassemble(d, [u.conj(), u]), reassemble(b, lb2)
+        if v == 'dot_diag':
+            c = yastn.tensordot(d, b, axes=(1, ib))
+            ref = np.tensordot(Dm, B, axes=(1, ib))
+            lc = [u.conj()] + [l for i, l in enumerate(lb2) if i != ib]
+        else:
+            c = d.broadcast(b, axes=ib)
+            dv = np.array([Dm[i, i] for i in range(Dm.shape[0])], dtype=Dm.dtype)
+            shp = [1] * rb; shp[ib] = -1
+            ref = B * dv.reshape(shp)
+            lc = lb2
+        ctx.eq(reassemble(c, lc), ref, f'{v} with {da} diagonal and {db} tensor')
+        if ctx.mode == 'float':
+            ctx.check(c.yastn_dtype == 'complex128', f'{v}:promoted-dtype', c.yastn_dtype)
+        return {'d': describe(d), 'b': describe(b)}
+    if v == 'tensordot':
+        spec2 = dict(spec, dtype=da)
+        a, b, axes_a, axes_b = _contract_pair(ctx, rng, spec2, cfg, 2, 2, 1)
+        ctx.fill(b, 'bb', db)
+        A, B, la, lb = _union_dense_pair(a, b, axes_a, axes_b)
+        c = yastn.tensordot(a, b, axes=(tuple(axes_a), tuple(axes_b)))
+        lc = [l for i, l in enumerate(la) if i not in axes_a] + [l for i, l in enumerate(lb) if i not in axes_b]
+        ctx.eq(reassemble(c, lc), np.tensordot(A, B, axes=(axes_a, axes_b)), f'tensordot({da}, {db})')
+        if ctx.mode == 'float':
+            ctx.check(c.yastn_dtype == 'complex128', 'tensordot:promoted-dtype', c.yastn_dtype)
+        return {'a': describe(a), 'b': describe(b)}
+    a, ta = _operand(ctx, rng, spec, 'a', rng.randint(1, 3), cfg, dtype=da)
+    if v == 'mul_complex':
+        z = ctx.scalar('z', 'complex')
+        c = a * z
+        ctx.eq(reassemble(c), reassemble(a) * z, 'real-or-complex tensor times complex scalar')
+        if ctx.mode == 'float':
+            ctx.check(c.yastn_dtype == 'complex128', 'mul:promoted-dtype', c.yastn_dtype)
+        return describe(a)
+    if v in ('add', 'vdot'):
+        tb = _partner_spec(rng, spec, ta, 'overlap', dtype=db)
+        b = cat.build(ctx, tb, 'b', config=cfg)
+        U = [union_leg(x, y) for x, y in zip(a.get_legs(native=True), b.get_legs(native=True))]
+        A, B = reassemble(a, U), reassemble(b, U)
+        if v == 'add':
+            c = a + b
+            ctx.eq(reassemble(c, U), A + B, f'{da} + {db}')
+            c2 = a - b
+            ctx.eq(reassemble(c2, U), A - B, f'{da} - {db}')
+            if ctx.mode == 'float':
+                ctx.check(c.yastn_dtype == 'complex128' and c2.yastn_dtype == 'complex128', 'add:promoted-dtype', c.yastn_dtype)
+        else:
+            ctx.eq([yastn.vdot(a, b)], [(dense.conj(A) * B).sum()], f'vdot({da}, {db})')
+        return {'a': describe(a), 'b': describe(b)}
+    raise KeyError(v)
